@@ -546,6 +546,9 @@ func UnmarshalValue(ctx Ctx, target reflect.Value, cont Sink) Sink {
 					target.Elem().Set(reflect.ValueOf(token.Value.([]byte)))
 				} else {
 					// array
+					if len(token.Value.([]byte)) > target.Elem().Len() {
+						return nil, we.With(TooManyElement)(UnmarshalError)
+					}
 					reflect.Copy(
 						target.Elem().Slice(0, target.Elem().Len()),
 						reflect.ValueOf(token.Value.([]byte)),
